@@ -62,7 +62,14 @@ class TProg:
         for ref, el in refs:
             for _ in range(self.rng.randint(0, 2)):
                 lines.append(indent + self.gate(ref, h, el))
-        mode = self.rng.choice(["all", "all", "some", "some", "none", "reset-after", "last-only", "first-only"])
+        mode = self.rng.choice(["all", "all", "some", "some", "none", "reset-after", "last-only", "first-only", "whole", "whole"])
+        if mode == "whole" and kind != "var":
+            # the whole register in one statement
+            lines.append("%smeasure %s;" % (indent, name))
+            self.toks += ["MA", str(h)]
+            self.draws_per_shot += k
+        elif mode == "whole":
+            mode = "all"
         for n_el, (ref, el) in enumerate(refs):
             if (mode == "all" or (mode == "some" and self.rng.random() < 0.5) or mode == "reset-after"
                     or (mode == "last-only" and n_el == len(refs) - 1) or (mode == "first-only" and n_el == 0)):
@@ -150,6 +157,8 @@ def renumber(toks, old, new):
         elif t == "G":
             n = 5 if toks[i + 1] in ("RX", "RY", "RZ") else 4
             seg = list(toks[i:i + n]); seg[2] = str(new) if seg[2] == str(old) else seg[2]; out += seg; i += n
+        elif t == "MA":
+            seg = list(toks[i:i + 2]); seg[1] = str(new) if seg[1] == str(old) else seg[1]; out += seg; i += 2
         elif t in ("M", "R"):
             seg = list(toks[i:i + 3]); seg[1] = str(new) if seg[1] == str(old) else seg[1]; out += seg; i += 3
         elif t == "E":
